@@ -21,6 +21,7 @@ POOLS = {
  "life": ("life", "", 144, 3000, 40000),
  "hand": ("hand", "", 144, 3000, 60000),
  "fault": ("fault", "", 96, 2500, 80000),
+ "timeout": ("timeout", "", 14, 60, 90000),   # one process per scenario: each waits out the 17 s response time-out
  # quarantine pools: each contains the trigger of one recorded finding and exists to confirm exactly that finding
  "kf-midhand-leave": ("kf", "kf-midhand-leave", 24, 200, 100000),
  "kf-lost-blind-update": ("kf", "kf-lost-blind-update", 16, 100, 110000),
@@ -65,8 +66,8 @@ def run_pool(name, tier, d, via=None, actors=False, bots=False):
     profile, allow, nq, nt, off = (MANAGER_POOLS if via else ACTOR_POOLS if actors else BOT_POOLS if bots else POOLS)[name]
     n = nq if tier == "quick" else nt
     procs = 48 if n >= 96 else max(1, n // 2)
-    if name == "kf-midhand-leave":
-        procs = n          # the finding kills the engine process: one scenario per process
+    if name in ("kf-midhand-leave", "timeout"):
+        procs = n          # the finding kills the engine process / the scenario waits 17 s: one scenario per process
     per = (n + procs - 1) // procs
     base = vlib.seed() * 100000 + off
     jobs = []
